@@ -57,29 +57,32 @@ func posdelivVariants(tier string) []vsched.Variant {
 		add(posdelivCfg{mode: "recover", pre: 2, from: 2, npub: 2, staleEp: true}, 0, 1, 75)
 		return out
 	}
-	for _, mode := range []string{"fresh", "recover", "posonly", "server"} {
-		for _, flt := range []string{"", "client", "server"} {
-			for _, faults := range []bool{false, true} {
-				from := 1
-				if flt == "client" {
-					from = 0
-				}
-				add(posdelivCfg{mode: mode, pre: 2, from: from, npub: 2, filter: flt, faults: faults}, 2, 8, 280)
-			}
-		}
+	// thorough: deviation bound 2 on a selection that covers every mode, filter and fault dimension
+	// (the full product does not fit a few minutes on 16 cores)
+	for _, c := range []posdelivCfg{
+		{mode: "fresh", pre: 2, npub: 2},
+		{mode: "fresh", pre: 2, npub: 2, filter: "client", faults: true},
+		{mode: "recover", pre: 2, from: 1, npub: 2},
+		{mode: "recover", pre: 2, from: 1, npub: 2, faults: true},
+		{mode: "recover", pre: 2, from: 0, npub: 2, filter: "client"},
+		{mode: "recover", pre: 2, from: 1, npub: 2, filter: "server", faults: true},
+		{mode: "posonly", pre: 2, npub: 2, faults: true},
+		{mode: "server", pre: 2, npub: 2},
+		{mode: "server", pre: 2, npub: 2, filter: "server", faults: true},
+		{mode: "recover", pre: 2, from: 1, npub: 2, remove: true},
+		{mode: "recover", pre: 2, from: 0, npub: 2, histSz: 2},
+		{mode: "recover", pre: 2, from: 2, npub: 2, staleEp: true},
+	} {
+		add(c, 2, 4, 150)
 	}
-	add(posdelivCfg{mode: "recover", pre: 2, from: 1, npub: 3}, 2, 8, 280)
-	add(posdelivCfg{mode: "recover", pre: 2, from: 0, npub: 3, filter: "client", faults: true}, 2, 16, 280)
-	add(posdelivCfg{mode: "recover", pre: 2, from: 1, npub: 2, remove: true}, 2, 8, 280)
-	add(posdelivCfg{mode: "recover", pre: 2, from: 0, npub: 2, histSz: 2}, 2, 8, 280)
-	add(posdelivCfg{mode: "recover", pre: 2, from: 2, npub: 2, staleEp: true}, 2, 4, 280)
+	add(posdelivCfg{mode: "recover", pre: 2, from: 0, npub: 3, filter: "client", faults: true}, 2, 8, 200)
 	return out
 }
 
 func init() {
 	vsched.Register(&vsched.Harness{
 		Name: "posdeliv", Props: []string{"C01"}, Kind: "sched",
-		Doc: "node + chaos broker (queued PUB/SUB deliveries); threads: S subscribe (fresh / recover from (k,epoch) / positioning only / server-side Client.Subscribe), P publishes 2-3 publications with alternating tags, D delivers with faults {deliver, drop, duplicate, delay} as environment choices, H RemoveHistory; filter variants none/client/server; oracle on the client's frames: recovered ++ live offsets strictly increase, every offset between subscribe position and last delivered offset delivered or withheld by the filter, nothing for the channel after an insufficient-state unsubscribe/disconnect, without faults a still-open subscription has accounted for the stream top",
+		Doc:      "node + chaos broker (queued PUB/SUB deliveries); threads: S subscribe (fresh / recover from (k,epoch) / positioning only / server-side Client.Subscribe), P publishes 2-3 publications with alternating tags, D delivers with faults {deliver, drop, duplicate, delay} as environment choices, H RemoveHistory; filter variants none/client/server; oracle on the client's frames: recovered ++ live offsets strictly increase, every offset between subscribe position and last delivered offset delivered or withheld by the filter, nothing for the channel after an insufficient-state unsubscribe/disconnect, without faults a still-open subscription has accounted for the stream top",
 		Variants: posdelivVariants,
 		Sched:    func(v vsched.Variant) func() { return posdelivBody(posdelivCfgs[v.Name]) },
 	})
